@@ -41,6 +41,19 @@ def numRefWith (q : Nat → Bool) (hexOnly : Bool) : List Char → Bool
 def ctlRef (raw : List Char) : Bool :=
   anyAfterAmp (numRefWith (fun v => v = 0 || v = 13) false) raw
 
+/-- `s` (text after `&`) is a `;`-terminated reference that denotes a line feed (`&#10;`, `&#xA;`, `&NewLine;`) -/
+def refToLf (s : List Char) : Bool :=
+  match matchRef false s with
+  | some ([.lit ch], k) => ch = '\n' && (s.drop (k - 1)).head? = some ';'
+  | _ => false
+
+/-- part of **K-C03-2** (`trig.c03.ctlref`): a literal CR immediately followed by a reference to LF.  The minifier
+    writes the LF itself, the parser's newline normalisation then merges CR LF into one LF.  (The decoded units of
+    `Spec/HtmlAttr.lean` identify `&#10;` with a literal LF; this is the one place where the parser does not.) -/
+def crLfRef : List Char → Bool
+  | [] => false
+  | c :: s => (c = '\r' && (match s with | d :: t => d = '&' && refToLf t | [] => false)) || crLfRef s
+
 /-- **K-C03-3** (`trig.c03.hexoverflow`): a `;`-terminated hexadecimal reference whose value is ≥ 2^63
     (Go computes it in a wrapping 64-bit `int`; the standard says U+FFFD). -/
 def hexOverflow (raw : List Char) : Bool :=
@@ -67,6 +80,6 @@ def glueFrom : Bool → List Char → Bool
 def glue (raw : List Char) : Bool := glueFrom false raw
 
 /-- the guard of `entities_preserve_partial` -/
-def refsTrigger (raw : List Char) : Bool := glue raw || ctlRef raw || hexOverflow raw
+def refsTrigger (raw : List Char) : Bool := glue raw || ctlRef raw || hexOverflow raw || crLfRef raw
 
 end Verif.Spec.HtmlKnown
